@@ -1,3 +1,266 @@
+//! C07 — a failed call changes nothing and leaves the object usable.
+//! Differential twin runs on the real objects: for every explored history h, every failing call f
+//! enabled after h and every continuation c (always completed to a full round whose output is
+//! read), the observations of c after h++[f] must equal, call for call, those after h alone.
+use std::collections::HashSet;
+
+use crate::api::*;
+use crate::c06::{enabled_ops, starts, Start};
+use crate::core::*;
+use crate::json::J;
+use crate::kv::*;
 use crate::report::*;
-pub fn run(_ctx: &Ctx, rep: &mut Report) { rep.machinery_errors.push("not implemented".into()); }
-pub fn replay(_ctx: &Ctx, _case: &str) -> Result<(), String> { Err("not implemented".into()) }
+
+fn soil_opt(s: u64) -> Option<u64> {
+    if s == 0 {
+        None
+    } else {
+        Some(s)
+    }
+}
+
+/// small continuation alphabet (valid next steps and the typical next mistakes)
+fn core_ops(s: &Spec) -> Vec<Op> {
+    let mut v = Vec::new();
+    if !s.decoder {
+        v.push(Op::Add(s.b));
+        v.push(Op::Encode);
+    } else {
+        let next_o = (0..s.k).find(|i| !s.orig.contains(i));
+        let next_r = (0..s.r).rev().find(|j| !s.rec.contains(j));
+        if let Some(i) = next_o {
+            v.push(Op::AddO(i, s.b));
+        }
+        if let Some(j) = next_r {
+            v.push(Op::AddR(j, s.b));
+        }
+        if let Some(i) = s.orig.iter().next() {
+            v.push(Op::AddO(*i, s.b)); // duplicate
+        }
+        v.push(Op::Decode);
+    }
+    v.push(Op::Reset(2, 3, 64));
+    v.push(Op::Reset(3, 2, 66));
+    if s.kind != Kind::Rs {
+        v.push(Op::Recycle(if s.kind == Kind::High { Kind::Low } else { Kind::High }, 2, 1, 64));
+    }
+    v
+}
+
+/// ops that complete the current round from model state `s`
+fn completion(s: &Spec) -> Vec<Op> {
+    let mut v = Vec::new();
+    if !s.decoder {
+        for _ in s.received..s.k {
+            v.push(Op::Add(s.b));
+        }
+        v.push(Op::Encode);
+    } else {
+        let mut have = s.orig.len() + s.rec.len();
+        // originals except index 0 first, then recovery from the top
+        for i in 1..s.k {
+            if have >= s.k {
+                break;
+            }
+            if !s.orig.contains(&i) {
+                v.push(Op::AddO(i, s.b));
+                have += 1;
+            }
+        }
+        for j in (0..s.r).rev() {
+            if have >= s.k {
+                break;
+            }
+            if !s.rec.contains(&j) {
+                v.push(Op::AddR(j, s.b));
+                have += 1;
+            }
+        }
+        if have < s.k && !s.orig.contains(&0) {
+            v.push(Op::AddO(0, s.b));
+        }
+        v.push(Op::Decode);
+    }
+    v
+}
+
+fn model_after(m: &Model, mut s: Spec, ops: &[Op]) -> Spec {
+    for op in ops {
+        if !matches!(m.expect(&s, op), Expect::ErrAny(_)) {
+            m.apply(&mut s, op);
+        }
+    }
+    s
+}
+
+/// continuations of depth <= b from state s, each extended by the completion of the round
+fn continuations(m: &Model, s: &Spec, b: usize) -> Vec<Vec<Op>> {
+    let mut out: Vec<Vec<Op>> = Vec::new();
+    let mut level: Vec<(Vec<Op>, Spec)> = vec![(vec![], s.clone())];
+    for _ in 0..=b {
+        let mut next = Vec::new();
+        for (ops, st) in &level {
+            let mut full = ops.clone();
+            full.extend(completion(st));
+            out.push(full);
+            for op in core_ops(st) {
+                let mut o2 = ops.clone();
+                o2.push(op.clone());
+                let st2 = model_after(m, st.clone(), &[op]);
+                next.push((o2, st2));
+            }
+        }
+        level = next;
+    }
+    // the last level's prefixes were generated but only completed ones are emitted: trim
+    out.sort();
+    out.dedup();
+    out
+}
+
+fn twin(m: &Model, st: &Start, h: &[Op], f: &Op, c: &[Op], base: &Run) -> Result<(), (String, String)> {
+    let mut ops = h.to_vec();
+    ops.push(f.clone());
+    ops.extend_from_slice(c);
+    let run = run_history(m, st.eng, st.decoder, st.kind, st.cfg.0, st.cfg.1, st.cfg.2, soil_opt(st.soil), &ops);
+    let fo = &run.obs[h.len()];
+    if !matches!(fo, Obs::Err(_)) {
+        if let Obs::Panic(p) = fo {
+            return Err((format!("failing call {} returns Err", f.dump()), format!("PANIC: {p}")));
+        }
+        // the call did not fail here although the model says it must: that is C06's finding, not a C07 case
+        return Ok(());
+    }
+    for (i, (a, b)) in base.obs[h.len()..].iter().zip(run.obs[h.len() + 1..].iter()).enumerate() {
+        if a != b {
+            return Err((format!("after failed {}: call #{i} of the continuation ({}) -> {} (as without the failed call)", f.dump(), c[i].dump(), a.short()), b.short()));
+        }
+    }
+    Ok(())
+}
+
+pub fn replay(_ctx: &Ctx, case: &str) -> Result<(), String> {
+    let kv = Kv::parse(case)?;
+    let refm = RefModel::new();
+    let m = Model { refm: &refm, seed: kv.u64("seed") };
+    let st = Start {
+        eng: if kv.str("eng") == "default" { "default" } else { "nosimd" },
+        decoder: kv.str("dir") == "dec",
+        kind: Kind::parse(kv.str("kind")),
+        cfg: (kv.usize("k"), kv.usize("r"), kv.usize("b")),
+        soil: kv.u64("soil"),
+    };
+    let h = parse_ops(kv.str("h"));
+    let f = Op::parse(kv.str("f"));
+    let c = parse_ops(kv.str("c"));
+    let mut hc = h.clone();
+    hc.extend_from_slice(&c);
+    let base = run_history(&m, st.eng, st.decoder, st.kind, st.cfg.0, st.cfg.1, st.cfg.2, soil_opt(st.soil), &hc);
+    twin(&m, &st, &h, &f, &c, &base).map_err(|(e, o)| format!("expected {e}; observed {o}"))
+}
+
+pub fn run(ctx: &Ctx, rep: &mut Report) {
+    let refm = RefModel::new();
+    let m = Model { refm: &refm, seed: ctx.seed };
+    let (a, b) = if ctx.thorough() { (3usize, 2usize) } else { (2, 1) };
+    rep.rule = "case = (start, history h of depth<=a reached by BFS with exact state merging, failing call f enabled after h, continuation c of depth<=b completed to a full round); the observations of c after h++[f] must equal those after h, call for call (results, errors, restored/recovery bytes), and nothing may panic; non-trivial = every twin run (each contains a failing call followed by a completed round); distinct by (start,h,f,c)".into();
+    rep.assume("a failing new(.., Some(work)) consumes the old object by move and is therefore not a 'failed call on an object'; it is excluded as f");
+    rep.bound("a_history_depth", J::i(a));
+    rep.bound("b_continuation_depth", J::i(b));
+    let sts = starts(ctx.thorough(), ctx.seed | 1);
+    rep.bound("starts", J::i(sts.len()));
+    let mut failing_kinds: std::collections::BTreeMap<String, u64> = Default::default();
+    for st in &sts {
+        // histories: BFS with merging to depth a
+        let mut seen: HashSet<(Spec, Option<u64>)> = HashSet::new();
+        let init = run_history(&m, st.eng, st.decoder, st.kind, st.cfg.0, st.cfg.1, st.cfg.2, soil_opt(st.soil), &[]);
+        seen.insert((init.spec.clone(), init.digest));
+        let mut all: Vec<(Vec<Op>, Spec)> = vec![(vec![], init.spec.clone())];
+        let mut frontier = all.clone();
+        for _ in 0..a {
+            let mut work: Vec<(usize, Op)> = Vec::new();
+            for (ni, (_, spec)) in frontier.iter().enumerate() {
+                for op in enabled_ops(spec, true) {
+                    work.push((ni, op));
+                }
+            }
+            let results: Vec<(Run, Vec<Op>)> = par_for(work.len(), 16, |wi| {
+                let (ni, op) = &work[wi];
+                let mut ops = frontier[*ni].0.clone();
+                ops.push(op.clone());
+                (run_history(&m, st.eng, st.decoder, st.kind, st.cfg.0, st.cfg.1, st.cfg.2, soil_opt(st.soil), &ops), ops)
+            });
+            let mut next = Vec::new();
+            for (run, ops) in results {
+                rep.transitions += 1;
+                if run.first_bad.is_some() || run.digest.is_none() {
+                    continue; // C06 reports non-conformance; dead objects have no continuation
+                }
+                if seen.insert((run.spec.clone(), run.digest)) {
+                    next.push((ops, run.spec));
+                }
+            }
+            all.extend(next.iter().cloned());
+            frontier = next;
+        }
+        rep.states += all.len() as u64;
+        // twin runs
+        let mut jobs: Vec<(usize, Vec<Op>)> = Vec::new();
+        for (hi, (_, spec)) in all.iter().enumerate() {
+            for c in continuations(&m, spec, b) {
+                jobs.push((hi, c));
+            }
+        }
+        let results: Vec<(u64, Vec<(Op, Vec<Violation>)>)> = par_for(jobs.len(), 4, |ji| {
+            let (hi, c) = &jobs[ji];
+            let (h, spec) = &all[*hi];
+            let mut hc = h.clone();
+            hc.extend_from_slice(c);
+            let base = run_history(&m, st.eng, st.decoder, st.kind, st.cfg.0, st.cfg.1, st.cfg.2, soil_opt(st.soil), &hc);
+            let mut n = 0u64;
+            let mut out = Vec::new();
+            for f in enabled_ops(spec, false) {
+                if !matches!(m.expect(spec, &f), Expect::ErrAny(_)) {
+                    continue;
+                }
+                n += 1;
+                if let Err((exp, obs)) = twin(&m, st, h, &f, c, &base) {
+                    let kv = st.kv(&[], ctx.seed).with("h", dump_ops(h)).with("f", f.dump()).with("c", dump_ops(c));
+                    out.push((
+                        f.clone(),
+                        vec![Violation {
+                            key: format!("{}-{}-{}_{}_{}-h={}-f={}-c={}", if st.decoder { "dec" } else { "enc" }, st.kind.name(), st.cfg.0, st.cfg.1, st.cfg.2, dump_ops(h), f.dump(), dump_ops(c)),
+                            case: kv.dump(),
+                            expected: exp,
+                            observed: obs,
+                        }],
+                    ));
+                } else {
+                    out.push((f.clone(), vec![]));
+                }
+            }
+            (n, out)
+        });
+        for (n, out) in results {
+            rep.evaluations += n;
+            rep.traces += n;
+            rep.distinct += n;
+            for (f, vs) in out {
+                *failing_kinds.entry(f.dump().split(':').next().unwrap().to_string()).or_default() += 1;
+                rep.violations(vs);
+            }
+        }
+        if rep.samples.len() < 4 && !jobs.is_empty() {
+            let (hi, c) = &jobs[jobs.len() / 2];
+            let (h, spec) = &all[*hi];
+            if let Some(f) = enabled_ops(spec, false).into_iter().find(|f| matches!(m.expect(spec, f), Expect::ErrAny(_))) {
+                rep.sample(st.kv(&[], ctx.seed).with("h", dump_ops(h)).with("f", f.dump()).with("c", dump_ops(c)).dump());
+            }
+        }
+    }
+    let mut fk = J::obj();
+    for (k, v) in &failing_kinds {
+        fk.set(k, J::i(*v));
+    }
+    rep.extra("twin_runs_by_failing_call", fk);
+}
